@@ -1,4 +1,5 @@
 import P0f.LogicOk.Labels
+import P0f.LogicOk.HttpSigParse
 import P0f.Generated.Logic.ParseFile
 /-
   `_parse_file` (C09, C10, C11) against the source text: the line loop of the database parser, with its state machine
@@ -12,7 +13,7 @@ theorem gen_parseSigFor (k : RecKind) (v : List Char) : Gen.parseSigFor k v = pa
   · simp only [Gen.parseSigFor, parseSigFor, gen_parseMtuSig, Option.map_map]
     congr 1
   · simp only [Gen.parseSigFor, parseSigFor, gen_parseTcpSig]
-  · rfl
+  · simp only [Gen.parseSigFor, parseSigFor, gen_parseHttpSig]
 
 theorem gen_parseLabelFor (k : RecKind) (v : List Char) : Gen.parseLabelFor k v = parseLabelFor k v := by
   cases k <;> simp only [Gen.parseLabelFor, parseLabelFor, gen_parseLabel]
